@@ -6,7 +6,8 @@
 (* that one grid point reproduces the observation exactly (chi2 = 0):        *)
 (*   "two":   a=2, b=10^1, c=6       bin1 = (3a+b+2c)/2 = 14,  bin2 = (7a+b)/2 = 12        *)
 (*   "three": a=2, b=10^1, c=6, d=2  bin1 = (3a+b+2c+d)/2 = 15, bin2 = (7a+b+2d)/2 = 14    *)
-(* InvalidChemistry iff a + b > 50 (b = 100); InvalidTemperature iff a >= c.  *)
+(* InvalidChemistry iff some layer is above the limit: a + b > 50 (b = 100) in the deep layer (the upper layer  *)
+(* holds a only); InvalidTemperature iff a >= c.                                                                  *)
 EXTENDS Likelihood
 CONSTANTS Layout, Depth
 
@@ -60,7 +61,9 @@ MCCoef  == IF Layout = "three" THEN <<<<1, 2, 3, 4>>, <<1, 0, 0, 1>>, <<1, 1, 0,
 MCBins  == <<{1, 2}, {3, 4}>>
 MCData  == IF Mixed THEN <<28, 36>> ELSE IF Layout \in {"two", "obs"} \/ Hist THEN <<14, 12>> ELSE <<15, 14>>
 MCSig   == <<2, 3>>
-MCChem  == {1, 2}
+\* the atmosphere has two layers: the deep one holds the gases a and b, the upper one a only (b's profile vanishes towards the
+\* top): with b = 100 only ONE layer is above the limit.  Under the statement's rule ("any") that is InvalidChemistry iff a + b > 50
+MCChemLayers == <<{1, 2}, {1}>>
 MCNaNBins == {1}                 \* "NaNSome": the native points of bin 1 are NaN, bin 2 is comparable
 
 \* binding C: print every simulated behaviour of length Depth (history of calls with the
